@@ -110,9 +110,22 @@ def alpha_strings(A, seed, count, maxlen):
     out = []
     if not A:
         return out
-    for _ in range(count):
+    structural = [s for s in A if "Ring" in s or "Branch" in s]
+    for n in range(count):
         L = rng.randint(1, maxlen)
         u = rng.random()
+        v = rng.random()
+        if v < 0.08:          # every symbol once, in sorted or reversed order
+            out.append("".join(A if rng.random() < 0.5 else reversed(A)))
+            continue
+        if v < 0.2:           # a short motif repeated: deep regular structure
+            motif = [rng.choice(A) for _ in range(rng.randint(1, 4))]
+            out.append("".join(motif[i % len(motif)] for i in range(L)))
+            continue
+        if v < 0.28 and structural:   # structure symbols where atoms are expected
+            head = "".join(rng.choice(structural) for _ in range(rng.randint(1, 6)))
+            out.append(head + "".join(rng.choice(heavy * 2 + structural) for _ in range(L)))
+            continue
         if u < 0.3:
             pool = A
         elif u < 0.7:
@@ -235,6 +248,7 @@ ORACLE_PROPS = {
     "strict_eq_nonstrict":     {"C06": None},
     "nonstrict_table_indep":   {"C06": None},
     "oracles_agree":           {"C11": None},
+    "history_eq_cold_interpreter": {"C11": None},
 }
 
 
